@@ -124,7 +124,7 @@ package checkgroup
 //@ func (*concurrentCheckgroup).startConsumer$1$1
 //@   props C03 C15
 //@   opt abandon-props C15
-//@   opt recv-le-expected
+//@   opt recv-le-expected resultCh
 //@   noframe
 //@   requires g != nil && g.ctx != nil && g.subcheckCtx != nil && g.cancel != nil && g.doneCh != nil && g.addCheckCh != nil && g.finalizeCh != nil && g.reserveCheckCh != nil
 //@   loop 1 invariant resultCh != nil && chancap(resultCh) == 1 && g != nil && g.subcheckCtx != nil && g.ctx != nil
